@@ -6,6 +6,7 @@ mod c04;
 mod c08;
 mod c11;
 mod c12;
+mod c16;
 mod core;
 mod lc;
 mod lcgen;
@@ -27,6 +28,7 @@ fn prop_by_id(id: &str) -> Option<Box<dyn Prop>> {
         "C07" => Box::new(lc::LcProp(lc::Which::C07)),
         "C11" => Box::new(c11::C11),
         "C12" => Box::new(c12::C12),
+        "C16" => Box::new(c16::C16),
         "C15" => Box::new(rem::C15),
         _ => return None,
     })
